@@ -210,19 +210,36 @@ func decoScenario(np, ns int, c int) *explore.Scenario {
 			r.AddSubscriberDecorators(sd[:k]...)
 			r.AddSubscriberDecorators(sd[k:]...)
 		}
-		sub := hx.NewScriptSub("s", map[string][]*message.Message{"in": {hx.Msg("m")}})
-		pub := hx.NewScriptPub("p")
-		inTrace := ""
-		r.AddHandler("h", "in", sub, "out", pub, func(m *message.Message) ([]*message.Message, error) {
-			inTrace = m.Metadata.Get("trace")
-			return hx.Outputs(m, 1), nil
-		})
+		// three handlers (the third is added to the running router): every one of them gets the same lists
+		type hrec struct {
+			sub     *hx.ScriptSub
+			pub     *hx.ScriptPub
+			inTrace string
+		}
+		var hs []*hrec
+		addHandler := func() {
+			i := len(hs)
+			h := &hrec{sub: hx.NewScriptSub(fmt.Sprintf("s%d", i), map[string][]*message.Message{"in": {hx.Msg(fmt.Sprintf("m%d", i))}}), pub: hx.NewScriptPub(fmt.Sprintf("p%d", i))}
+			hs = append(hs, h)
+			r.AddHandler(fmt.Sprintf("h%d", i), "in", h.sub, "out", h.pub, func(m *message.Message) ([]*message.Message, error) {
+				h.inTrace = m.Metadata.Get("trace")
+				return hx.Outputs(m, 1), nil
+			})
+		}
+		addHandler()
+		if c < 0 { // under preemptions two handlers (one of them late) are what fits the budget
+			addHandler()
+		}
 		go func() {
 			if err := r.Run(context.Background()); err != nil {
 				vs.Fail("run-result", "%v", err)
 			}
 		}()
 		<-r.Running()
+		addHandler()
+		if err := r.RunHandlers(context.Background()); err != nil {
+			vs.Fail("runhandlers-error", "%v", err)
+		}
 		vs.Quiesce()
 		wantIn, wantOut := "", ""
 		for i := 0; i < ns; i++ {
@@ -231,14 +248,18 @@ func decoScenario(np, ns int, c int) *explore.Scenario {
 		for i := 0; i < np; i++ {
 			wantOut += fmt.Sprintf("p%d,", i)
 		}
-		if inTrace != wantIn {
-			vs.Fail("subscriber-decorators", "incoming message passed subscriber decorators %q, expected %q", inTrace, wantIn)
-		}
-		calls := pub.Snapshot()
-		if len(calls) != 1 || len(calls[0].Msgs) != 1 {
-			vs.Fail("publisher-decorators", "expected one published message, got %d calls", len(calls))
-		} else if got := calls[0].Msgs[0].Metadata.Get("trace"); got != wantOut {
-			vs.Fail("publisher-decorators", "outgoing message passed publisher decorators %q, expected %q", got, wantOut)
+		inTrace := ""
+		for i, h := range hs {
+			inTrace = h.inTrace
+			if h.inTrace != wantIn {
+				vs.Fail("subscriber-decorators", "handler h%d: incoming message passed subscriber decorators %q, expected %q", i, h.inTrace, wantIn)
+			}
+			calls := h.pub.Snapshot()
+			if len(calls) != 1 || len(calls[0].Msgs) != 1 {
+				vs.Fail("publisher-decorators", "handler h%d: expected one published message, got %d calls", i, len(calls))
+			} else if got := calls[0].Msgs[0].Metadata.Get("trace"); got != wantOut {
+				vs.Fail("publisher-decorators", "handler h%d: outgoing message passed publisher decorators %q, expected %q", i, got, wantOut)
+			}
 		}
 		vs.Note("in=%s out=%s", inTrace, wantOut)
 	}}
@@ -272,5 +293,10 @@ func init() {
 			add(tier, 1, func(t reg.Tier) *explore.Scenario { return decoScenario(np, ns, -1) })
 		}
 	}
-	add(reg.Quick, 10, func(t reg.Tier) *explore.Scenario { return decoScenario(2, 2, 1) })
+	add(reg.Quick, 10, func(t reg.Tier) *explore.Scenario {
+		if t == reg.Thorough {
+			return decoScenario(2, 2, 1)
+		}
+		return decoScenario(2, 2, 0)
+	})
 }
